@@ -8,6 +8,7 @@ import (
 	"context"
 	"encoding/xml"
 	"fmt"
+	"io"
 	"sync"
 
 	"mellium.im/xmlstream"
@@ -98,8 +99,39 @@ func (h *Handler) HandleMessage(msg stanza.Message, r xmlstream.TokenReadEncoder
 		return nil
 	}
 
-	iter.msgC <- xmlstream.MultiReader(xmlstream.Token(msgTok), xmlstream.Token(tok), r)
+	// The iterator is consumed by another goroutine, and as soon as we return
+	// the session goes on reading from the stream, so the live token reader
+	// cannot be handed over: read the rest of the message first and pass on a
+	// copy of its tokens.
+	toks := []xml.Token{xml.CopyToken(msgTok), xml.CopyToken(tok)}
+	for {
+		t, err := r.Token()
+		if t != nil {
+			toks = append(toks, xml.CopyToken(t))
+		}
+		if err == io.EOF {
+			break
+		}
+		if err != nil {
+			return err
+		}
+	}
+	iter.msgC <- &tokenSliceReader{toks: toks}
 	return nil
+}
+
+// tokenSliceReader is a token reader over tokens that have already been read.
+type tokenSliceReader struct {
+	toks []xml.Token
+}
+
+func (r *tokenSliceReader) Token() (xml.Token, error) {
+	if len(r.toks) == 0 {
+		return nil, io.EOF
+	}
+	tok := r.toks[0]
+	r.toks = r.toks[1:]
+	return tok, nil
 }
 
 // Fetch requests messages from the archive and returns an iterator over the
